@@ -805,6 +805,7 @@ struct Block {
     contract: Vec<String>,
     hints: Vec<(String, Vec<String>)>,
     replaces: Vec<(String, String)>,
+    replaces_all: Vec<(String, String)>,
     srcs: Vec<(String, String)>,
     sig: Option<String>,
 }
@@ -1273,6 +1274,21 @@ fn extract(src: &Src, b: &Block, report: &mut Vec<serde_json::Value>, vacuity: b
                 // manual replaces (rule RM): unique normalised occurrence inside the body
                 let (bs, be) = (open.0, close.1);
                 let (nbody, map) = normalise(&text[bs..be]);
+                for (from, to) in &b.replaces_all {
+                    // every occurrence (at least one) of the normalised text is replaced (rule RM, each listed)
+                    let nf = norm(from);
+                    let idxs: Vec<usize> = nbody.match_indices(&nf).map(|(i, _)| i).collect();
+                    if idxs.is_empty() {
+                        return Err(format!("LOST-ANCHOR: replaceall `{from}` in {}", b.path));
+                    }
+                    for i0 in idxs {
+                        let s = bs + map[i0];
+                        let e = bs + map[i0 + nf.len() - 1] + 1;
+                        col.edits.retain(|ed| !(ed.start >= s && ed.end <= e && ed.rule != "H") || (ed.start == ed.end && ed.start == s));
+                        col.push(s, e, to.clone(), "RM");
+                        manual.push(serde_json::json!({"rule":"RM","original": nf, "replacement": to}));
+                    }
+                }
                 for (from, to) in &b.replaces {
                     let nf = norm(from);
                     let idxs: Vec<usize> = nbody.match_indices(&nf).map(|(i, _)| i).collect();
@@ -1468,6 +1484,12 @@ fn process_lines(lines: &[String], ctx: &Ctx, cache: &mut HashMap<String, Src>, 
                         b.hints.push(c);
                     }
                     cur_hint = Some((h.trim().to_string(), Vec::new()));
+                } else if let Some(r) = t2.strip_prefix("//@replaceall ") {
+                    if let Some(c) = cur_hint.take() {
+                        b.hints.push(c);
+                    }
+                    let (from, to) = r.split_once("==>").unwrap_or_else(|| die("//@replaceall needs ==>"));
+                    b.replaces_all.push((from.trim().to_string(), to.trim().to_string()));
                 } else if let Some(r) = t2.strip_prefix("//@replace ") {
                     if let Some(c) = cur_hint.take() {
                         b.hints.push(c);
